@@ -191,6 +191,7 @@ class Node(ABC):
         self._needs_seed = _needs_seed
         self._outdated = True
         self._outputs: tuple[Node, ...] = ()
+        self._seed_key: Any = None  # seed of a model seed node that was detached
         self._value: Any = None
         self._var: Var | None = None
 
